@@ -391,12 +391,14 @@ func init() {
 	register(&Prop{
 		ID: "C16",
 		Rule: "round trip: issuers (no colon), accounts and secrets (base32 in every accepted spelling - padded, lower/mixed case, white space - or text) drawn from Unicode incl. space % / ? # & = + @ and percent-escape look-alikes x digits 0..255 x 3 hashes x periods {0,1,29,30,31,60,2^31}; Generate{TOTP,HOTP}URL(p).String() is decoded by an independent RFC 3986 parser and by ParseOTPAuthURL(url.Parse(text)) and both must return the input; parse-only: hand-assembled URLs with digits/period texts over -2^63..2^64+, non-numeric and empty, and numbers followed/preceded by ';', '%', '%zz' (pairs a strict query parser rejects) must fail or return exactly the number written - never the default in its place; URLs kept by the caller are rendered and parsed again after later URL/OCRA/HOTP calls; type in any letter case; " +
+			"a reduced differential against the same reference models also runs in a binary built for GOARCH=386 (32-bit int/uint; observed.evaluations_on_a_32bit_build); " +
 			"distinct_nontrivial counts distinct parameter sets round-tripped plus distinct hand-assembled URL texts",
 		Run: func(c *Ctx) {
 			b := newBatcher(c, judgeURL, 50)
 			c16Cases(c, b.add)
 			b.flush()
 			c16Retained(c, b.keep)
+			runArch386(c)
 			var ps []parseCase
 			c16ParseCases(c, func(k parseCase) { ps = append(ps, k) })
 			parallelJudge(c, ps, judgeParse)
